@@ -46,6 +46,8 @@ type Director struct {
 	// lag: blocks above the client's filter-header tip whose filter headers
 	// the peers withhold (lag phase).
 	lag atomic.Pointer[[]*chaingen.Node]
+	// lagBy: the blocks currently above the filter-header tip (under hmu).
+	lagBy map[chainhash.Hash]*chaingen.Node
 
 	mu          sync.Mutex
 	good        map[chainhash.Hash]int // block -> verifiable cfilter messages handed to the wire
@@ -58,6 +60,7 @@ type Director struct {
 	roundReqs   int
 	msgsGood    int64
 	msgsBad     int64
+	lagNamed    int64 // messages naming a block above the client's filter-header tip
 	unsolGood   int64
 	unsolBad    int64
 	recent      []string
@@ -71,7 +74,7 @@ type roundState struct {
 
 // NewDirector builds a director for the chain ending in tip.
 func NewDirector(seed int64, tip *chaingen.Node) *Director {
-	d := &Director{byHash: map[chainhash.Hash]*chaingen.Node{}, replaced: map[int32]*chaingen.Node{},
+	d := &Director{byHash: map[chainhash.Hash]*chaingen.Node{}, replaced: map[int32]*chaingen.Node{}, lagBy: map[chainhash.Hash]*chaingen.Node{},
 		peerIdx: map[string]int{}, seed: seed,
 		good: map[chainhash.Hash]int{}, badFor: map[chainhash.Hash]int{}, foreign: map[chainhash.Hash]bool{},
 		served: map[string]int64{}, roundLabels: map[string]int{}, roundPos: map[string]bool{}}
@@ -224,8 +227,17 @@ func (d *Director) record(peer int, label string, msgs []wire.Message, unsolicit
 				d.note(fmt.Sprintf("peer%d %s BAD type=%d names-height=%d len=%d", peer, label, cf.FilterType, n.Height, len(cf.Data)))
 			}
 		default:
-			d.foreign[cf.BlockHash] = true
 			b++
+			if ln := d.LagNode(cf.BlockHash); ln != nil {
+				// A block above the client's filter-header tip: whatever the
+				// message carries, the client has no committed header for it.
+				d.lagNamed++
+				if len(msgs) <= 8 || b <= 3 {
+					d.note(fmt.Sprintf("peer%d %s UNVERIFIABLE names-height=%d (above the filter-header tip) len=%d", peer, label, ln.Height, len(cf.Data)))
+				}
+				break
+			}
+			d.foreign[cf.BlockHash] = true
 			d.note(fmt.Sprintf("peer%d %s BAD foreign-hash len=%d", peer, label, len(cf.Data)))
 		}
 	}
@@ -265,13 +277,128 @@ func (d *Director) Counters(add func(string, int64)) {
 	add("cfilter_msgs_sent_unverifiable", d.msgsBad)
 	add("unsolicited_msgs_sent_verifiable", d.unsolGood)
 	add("unsolicited_msgs_sent_unverifiable", d.unsolBad)
+	if d.lagNamed > 0 {
+		add("cfilter_msgs_sent_naming_blocks_above_filter_tip", d.lagNamed)
+	}
 	for k, v := range d.served {
 		add("served/"+k, v)
 	}
 }
 
-// SetLag starts withholding the filter headers of the given new blocks.
-func (d *Director) SetLag(ns []*chaingen.Node) { d.lag.Store(&ns) }
+// SetLag starts withholding the filter headers of the given new blocks: ns are
+// ALL blocks of the peers' chain above the client's filter-header tip, lowest
+// first. Blocks that were in the previous set and are not in this one were
+// replaced by a re-org: they stay known as replaced blocks.
+func (d *Director) SetLag(ns []*chaingen.Node) {
+	ns = append([]*chaingen.Node(nil), ns...)
+	d.hmu.Lock()
+	old := d.lagBy
+	d.lagBy = map[chainhash.Hash]*chaingen.Node{}
+	for _, n := range ns {
+		d.lagBy[n.Hash] = n
+	}
+	for h, n := range old {
+		if d.lagBy[h] == nil {
+			d.byHash[h] = n
+		}
+	}
+	d.hmu.Unlock()
+	d.lag.Store(&ns)
+}
+
+// LagNode returns the block with the given hash if it is one of the blocks
+// above the client's filter-header tip (nil if not).
+func (d *Director) LagNode(h chainhash.Hash) *chaingen.Node {
+	d.hmu.RLock()
+	defer d.hmu.RUnlock()
+	return d.lagBy[h]
+}
+
+// LagNodes returns the blocks above the client's filter-header tip.
+func (d *Director) LagNodes() []*chaingen.Node {
+	if l := d.lag.Load(); l != nil {
+		return *l
+	}
+	return nil
+}
+
+// lagShift builds a KLagShift answer: see the kind's description.
+func (d *Director) lagShift(s Spec, gq *wire.MsgGetCFilters, entries []*wire.MsgCFilter, targets map[int32]bool, rng *rand.Rand) []wire.Message {
+	lag := d.LagNodes()
+	if len(lag) == 0 || s.Shift < 1 {
+		out := make([]wire.Message, 0, len(entries))
+		for _, e := range entries {
+			out = append(out, e)
+		}
+		return out
+	}
+	full := lag[len(lag)-1].Path() // the peers' whole chain, index = height
+	ftip := lag[0].Height - 1      // the client's filter-header tip
+	top := int32(len(full) - 1)
+	// The heights the answer names: the requested range and the block(s) the
+	// caller asked for.
+	hs := map[int32]bool{}
+	for i := range entries {
+		if x := int32(gq.StartHeight) + int32(i); x >= 1 && x <= top {
+			hs[x] = true
+		}
+	}
+	for x := range targets {
+		if x >= 1 && x <= top {
+			hs[x] = true
+		}
+	}
+	var order []int32
+	for x := range hs {
+		order = append(order, x)
+	}
+	sort.Slice(order, func(i, j int) bool { return order[i] < order[j] })
+	mk := func(x, src int32) *wire.MsgCFilter {
+		if src < 0 {
+			src = 0
+		}
+		hash := full[x].Hash
+		return wire.NewMsgCFilter(wire.GCSFilterRegular, &hash, append([]byte(nil), full[src].FilterBytes...))
+	}
+	var out []wire.Message
+	for _, x := range order {
+		shifted := false
+		switch s.Pos {
+		case "all":
+			shifted = true
+		case "above":
+			shifted = x > ftip
+		default:
+			shifted = targets[x]
+		}
+		if !shifted {
+			out = append(out, mk(x, x))
+			continue
+		}
+		switch s.Keep {
+		case "before":
+			out = append(out, mk(x, x-s.Shift), mk(x, x))
+		case "after":
+			out = append(out, mk(x, x), mk(x, x-s.Shift))
+		default:
+			out = append(out, mk(x, x-s.Shift))
+		}
+	}
+	if s.Push {
+		for _, n := range lag {
+			out = append(out, mk(n.Height, n.Height))
+		}
+	}
+	switch s.Order {
+	case "shuffle":
+		rng.Shuffle(len(out), func(i, j int) { out[i], out[j] = out[j], out[i] })
+	case "reverse":
+		for i, j := 0, len(out)-1; i < j; i, j = i+1, j-1 {
+			out[i], out[j] = out[j], out[i]
+		}
+	}
+	return out
+}
 
 func (d *Director) withheld(h chainhash.Hash) bool {
 	if l := d.lag.Load(); l != nil {
@@ -325,6 +452,8 @@ func (d *Director) Mutate(p *netsim.Peer, req wire.Message, honest []wire.Messag
 				out = append(out, wire.NewMsgCFilter(wire.GCSFilterRegular, &hash, append([]byte(nil), n.FilterBytes...)))
 			}
 		}
+	case spec.Kind == KLagShift:
+		out = d.lagShift(spec, gq, entries, targets, rng)
 	case len(entries) == 0:
 		out = honest
 	default:
@@ -333,6 +462,9 @@ func (d *Director) Mutate(p *netsim.Peer, req wire.Message, honest []wire.Messag
 	base := spec.Kind
 	if spec.Kind == KCorrupt {
 		base += ":" + spec.Corr
+	}
+	if spec.Kind == KLagShift {
+		base += ":" + spec.Rel
 	}
 	d.mu.Lock()
 	d.reqs++
